@@ -447,10 +447,30 @@ static void cli_begin(const char *kind)
 }
 static void cli_end(void) { in_cli = 0; }
 
+/* A resolver on the way may change the letter case of the query name (upper-casing forwarders, 0x20 randomisation); the
+   client stays on Base32 for exactly that situation, and the server reads command letter, user id digit, header
+   characters and Base32 data case-insensitively.  Chosen per triple for Base32 sessions. */
+static int relay_case;		/* 0 keep, 1 upper, 2 random */
+static unsigned long long n_case_changed;
+
 static void srv_feed(void)
 {
 	srv_nans = 0;
 	up_calls = 0; up_ret = -1;
+	if (relay_case && cli_len > 12) {
+		int pos = 12, i;
+		while (pos < cli_len && cli_dgram[pos]) {
+			int l = cli_dgram[pos];
+			if (l & 0xC0) break;
+			for (i = 1; i <= l && pos + i < cli_len; i++) {
+				unsigned char ch = cli_dgram[pos + i];
+				if (((ch | 0x20) >= 'a') && ((ch | 0x20) <= 'z') && (relay_case == 1 || (drv_rand() >> 16 & 1)))
+					cli_dgram[pos + i] = (relay_case == 1) ? (ch & 0xDF) : (ch ^ 0x20);
+			}
+			pos += l + 1;
+		}
+		n_case_changed++;
+	}
 	feed_buf = cli_dgram;
 	feed_len = cli_len;
 	in_srv = 1;
@@ -756,6 +776,8 @@ static void run_triple(unsigned long long seed, int L, int d, int codec)
 	n_triples++;
 	triple_failed = 0;
 
+	relay_case = (codec == 0) ? (int)drv_below(4) % 3 : 0;		/* Base32 sessions: keep (2 in 4), upper, random */
+	if (relay_case == 0 && codec == 0 && drv_below(2)) relay_case = 0;
 	drv_srv_config(srv_domain, cx.uid);
 	drv_cli_start(cli_domain, L, codec, cx.edns, PASSWORD);
 	if (drv_cli_get_maxlen() != L) { fprintf(stderr, "upname: client refused hostname limit %d\n", L); exit(3); }
@@ -857,6 +879,7 @@ out:
 	DRV_X("domain_pairs_run", pairs_run);
 	DRV_X("payload_cases", n_cases);
 	DRV_X("data_chunks", n_chunks);
+	DRV_X("names_with_case_changed_by_relay", n_case_changed);
 	DRV_X("failed_retransmissions_before_late_ack", n_failed_retransmissions);
 	DRV_X("login_prefix_only", n_login_prefix_only);
 	DRV_X("built_name_text_seen", n_txt_seen);
